@@ -88,6 +88,32 @@ def _freeze_regressor_defaults():
             REG0[k] = (cls, copy.deepcopy(kw))
 
 
+CUR_REC = [None]
+
+
+class _Standalone:
+    """the standalone rater; an exception on a finite feature vector is
+    itself what the statement excludes ("equals what the standalone rater
+    computes from the curve's features")"""
+
+    def __init__(self, rater, key):
+        self._r, self._key = rater, key
+        self.names = rater.names
+
+    def rate(self, samples=None, datasets=None):
+        try:
+            return self._r.rate(samples=samples, datasets=datasets)
+        except BaseException as e:  # noqa
+            if CUR_REC[0] is not None:
+                CUR_REC[0].violation(
+                    "standalone-rater-raises/" + type(e).__name__,
+                    "IndentationRater.rate(samples=features) raised %s: %s "
+                    "for the configuration %r"
+                    % (type(e).__name__, str(e)[:80], self._key[:2]
+                       + self._key[2:]), {"configuration": repr(self._key)})
+            return np.full(len(np.atleast_2d(samples)), np.nan)
+
+
 def oracle_rater(regressor, training_set, names, lda, ts_key):
     """standalone rater built WITHOUT nanite.rate.get_rater (so that a cache
     or shortcut inside get_rater cannot leak into the oracle)"""
@@ -109,7 +135,7 @@ def oracle_rater(regressor, training_set, names, lda, ts_key):
         ORACLE_RATERS[key] = IndentationRater(regressor=reg_cl(**dict(kw)),
                                               training_set=ts, names=names,
                                               lda=lda)
-    return ORACLE_RATERS[key]
+    return _Standalone(ORACLE_RATERS[key], key)
 
 
 def make_training_sets(rng, scratch):
@@ -722,6 +748,7 @@ def custom_rater_elsewhere(rec, rng):
 
 
 def run_shard(rec, tier, seed, shard, nshards):
+    CUR_REC[0] = rec
     _freeze_regressor_defaults()
     state0 = core.library_state()
     try:
@@ -760,6 +787,7 @@ def _run_shard(rec, tier, seed, shard, nshards):
 
 
 def replay(rec, case):
+    CUR_REC[0] = rec
     cid = case["case"]["id"]
     scratch = tempfile.mkdtemp(prefix="nv_c09_")
     try:
